@@ -30,8 +30,8 @@ EXTENDS FsckPreserve, Json, IOUtils
 
 A == INSTANCE Ext4Abs
 
-VARIABLES l, failed, basefailed, dmgfailed
-tvars == <<vars, l, failed, basefailed, dmgfailed>>
+VARIABLES l, failed, basefailed, dmgfailed, sbbad, g0uninit, backupok, dmgfacts
+tvars == <<vars, l, failed, basefailed, dmgfailed, sbbad, g0uninit, backupok, dmgfacts>>
 
 Tr == ndJsonDeserialize(IOEnv.TRACE)
 
@@ -56,7 +56,34 @@ OwnershipConjuncts == {"Fatal", "Cert", "InRange", "NotFixedMeta", "SingleOwner"
 BaseConsistent == (mode = "none" /\ dmg = 0) => cons
 DamageConfined == (mode = "none" /\ dmg > 0) => failed \cap OwnershipConjuncts = {}
 
+(***************************************************************************)
+(* Known findings, modelled as named deviations (DESIGN 3.5) that are       *)
+(* ENABLED in the conformance configuration.  A line that is only accepted  *)
+(* because of a deviation prints DEVIATION with its name (the check routes  *)
+(* it to the known-findings list); everything else is still a BADLINE.      *)
+(*  DevSbCsumRefuses: the primary superblock of the image handed to e2fsck  *)
+(*    fails only its checksum (reader fact sb.csum_ok) and no backup sits   *)
+(*    where the default geometry puts it (non-default group size, first     *)
+(*    data block, or a single group): e2fsck -fy gives up with exit 8.      *)
+(*  DevInodeUninitWipes: group 0 carries INODE_UNINIT under a valid         *)
+(*    descriptor checksum: pass 1 skips the group, the root is "not         *)
+(*    allocated", files are released.                                       *)
+(***************************************************************************)
+DefaultBackupReachable(st) ==
+    /\ st.geo.gdc > 1
+    /\ st.geo.bpg = 8 * st.geo.bs
+    /\ st.geo.first = (IF st.geo.bs = 1024 THEN 1 ELSE 0)
+DevSb == DevSbCsumRefuses /\ sbbad /\ ~backupok /\ exit' = 8 /\ mode' # "p"
+DevG0 == DevInodeUninitWipes /\ g0uninit
+
 Note(name, ok) == ok \/ PrintT(<<"BADLINE", l, name>>)
+Note2(name, ok, dev, devname) == ok \/ (IF dev THEN PrintT(<<"DEVIATION", l, devname>>) ELSE PrintT(<<"BADLINE", l, name>>))
+FsckChecks ==
+    /\ Note2("TreeUnchanged", TreeUnchanged', DevG0, "DevInodeUninitWipes")
+    /\ Note2("ExitOK", ExitOK', DevSb, "DevSbCsumRefuses")
+    /\ Note2("ConsistentAfter", ConsistentAfter', DevG0, "DevInodeUninitWipes")
+    /\ (ModeScope' \/ PrintT(<<"DIVERGE", l>>))
+    /\ (failed' = {} \/ PrintT(<<"FAILED", l, failed'>>))
 Checks ==
     /\ Note("TreeUnchanged", TreeUnchanged')
     /\ Note("ExitOK", ExitOK')
@@ -75,6 +102,7 @@ TBase ==
            t  == TreeObs(st)
        IN  tree0' = t /\ tree' = t /\ failed' = f /\ basefailed' = f /\ dmgfailed' = {} /\ cons' = (f = {})
     /\ mode' = "none" /\ exit' = 0 /\ dmgd' = FALSE /\ dch' = FALSE /\ mch' = FALSE /\ lin3' = FALSE /\ dmg' = 0 /\ runs' = 0
+    /\ backupok' = DefaultBackupReachable(Tr[l].st) /\ sbbad' = FALSE /\ g0uninit' = FALSE /\ dmgfacts' = <<FALSE, FALSE>>
     /\ UNCHANGED repvars
     /\ Checks
 
@@ -82,17 +110,23 @@ TRestore ==
     /\ IsEvent("Restore")
     /\ tree' = tree0 /\ failed' = basefailed /\ cons' = (basefailed = {})
     /\ mode' = "none" /\ exit' = 0 /\ dmgd' = FALSE /\ dch' = FALSE /\ mch' = FALSE /\ lin3' = FALSE /\ dmg' = 0 /\ runs' = 0
-    /\ UNCHANGED <<repvars, tree0, basefailed, dmgfailed>>
+    /\ sbbad' = FALSE /\ g0uninit' = FALSE
+    /\ UNCHANGED <<repvars, tree0, basefailed, dmgfailed, backupok, dmgfacts>>
     /\ Checks
 
 TDamage ==
     /\ IsEvent("Damage")
     /\ IF "st" \in DOMAIN Tr[l]
-       THEN LET f == A!FailedConjuncts(Tr[l].st) IN failed' = f /\ cons' = (f = {}) /\ dmgfailed' = f
-       ELSE failed' = dmgfailed /\ cons' = (dmgfailed = {}) /\ UNCHANGED dmgfailed      \* same damaged projection as the last Damage line
+       THEN LET st == Tr[l].st
+                f  == A!FailedConjuncts(st)
+                sb == A!Usable(st) /\ ~st.sb.csum_ok
+                g0 == A!Usable(st) /\ Len(st.gd) >= 1 /\ "INODE_UNINIT" \in Rng(st.gd[1].flags)
+            IN  failed' = f /\ cons' = (f = {}) /\ dmgfailed' = f /\ sbbad' = sb /\ g0uninit' = g0 /\ dmgfacts' = <<sb, g0>>
+       ELSE /\ failed' = dmgfailed /\ cons' = (dmgfailed = {})                         \* same damaged projection as the last Damage line
+            /\ sbbad' = dmgfacts[1] /\ g0uninit' = dmgfacts[2] /\ UNCHANGED <<dmgfailed, dmgfacts>>
     /\ DamageContract
     /\ dmg' = dmg + 1
-    /\ UNCHANGED <<repvars, tree0, basefailed, exit, dmgd, dch, mch, lin3, runs>>
+    /\ UNCHANGED <<repvars, tree0, basefailed, exit, dmgd, dch, mch, lin3, runs, backupok>>
     /\ Checks
 
 TFsck ==
@@ -106,11 +140,12 @@ TFsck ==
               [] r.same = 2 -> tree' = tree0 /\ failed' = basefailed /\ cons' = (basefailed = {})
               [] OTHER -> LET f == A!FailedConjuncts(r.st) IN tree' = TreeObs(r.st) /\ failed' = f /\ cons' = (f = {})
     /\ runs' = runs + 1
-    /\ UNCHANGED <<repvars, tree0, basefailed, dmgfailed, dmg>>
-    /\ Checks
+    /\ sbbad' = FALSE /\ g0uninit' = FALSE            \* they describe the image that was handed to this run
+    /\ UNCHANGED <<repvars, tree0, basefailed, dmgfailed, dmg, backupok, dmgfacts>>
+    /\ FsckChecks
 
 TraceInit ==
-    /\ l = 1 /\ failed = {} /\ basefailed = {} /\ dmgfailed = {}
+    /\ l = 1 /\ failed = {} /\ basefailed = {} /\ dmgfailed = {} /\ sbbad = FALSE /\ g0uninit = FALSE /\ backupok = FALSE /\ dmgfacts = <<FALSE, FALSE>>
     /\ tree = {} /\ tree0 = {} /\ cons = TRUE /\ exit = 0 /\ mode = "none" /\ dmgd = FALSE /\ dch = FALSE /\ mch = FALSE /\ lin3 = FALSE
     /\ leaves = <<>> /\ index = <<>> /\ indexed = FALSE /\ exts = <<>> /\ kind = "ext" /\ meta = {}
     /\ bitmap = {} /\ freecnt = 0 /\ uninit = FALSE /\ badcsum = {} /\ dmg = 0 /\ runs = 0
